@@ -34,9 +34,12 @@ package tlog
 //@   trigger NodeHash(a, b), NodeHash(c, d)
 //@   reason "cryptographic idealisation: SHA-256 collision resistance (RFC 6962 security argument)"
 
+//@ # RFC 6962 interior node hash: SHA-256(0x01 || left || right); elsewhere NodeHash is used as a function symbol
+//@ # whose injectivity (node_injective) is the cryptographic idealisation
 //@ func NodeHash
 //@   pure
-//@   trusted "SHA-256 call; modelled as an uninterpreted injective function (node_injective)"
+//@   ensures [C09] node_hash: result == HASHV(SHA("\x01" + string(left) + string(right)))
+//@   uses hash_bytes
 //@   props C03 C09 C10
 
 //@ func maxpow2
